@@ -1,13 +1,62 @@
-(* FACS (component 29): the Impl model refines the Spec.  FACS::new() takes no argument and there is no mutating operation:
-   the emitted 64 bytes are the reference layout. *)
+(* FACS (component 29): the Impl model refines the Spec.  FACS::new() takes no argument; the operations are direct assignments
+   of the seven public fields after signature and length: for every in-domain history the emitted 64 bytes are the reference
+   layout (ACPI 6.5 Table 5.12) in which every field holds the value last assigned to it. *)
 From Coq Require Import NArith ZArith List Lia Bool Arith.
 From ACPI Require Import Lib.Bytes Lib.Sx Lib.Machine Impl.Checksum Impl.Table Impl.Fields Impl.Run Impl.Facs
   Spec.Layout Spec.FixedS Spec.FacsS Proofs.FixedP Proofs.FacsP Proofs.RefFixedCommonP.
 Import ListNotations.
 Open Scope N_scope.
 
-Lemma facs_entries_are_reference : facs_ref (SL []) = Some (ser_flds facs_new_flds).
+(* the abstraction: the FACS value that holds the Spec's values *)
+Definition facs_flds (v : facs_vals) : flds :=
+  fbytes [70; 65; 67; 83]
+  ++ [F 4 64; F 4 (facs_val v 8); F 4 (facs_val v 12); F 4 (facs_val v 16); F 4 (facs_val v 20); F 8 (facs_val v 24);
+      F 1 (facs_val v 32)]
+  ++ fbytes [0; 0; 0]
+  ++ [F 4 (facs_val v 36)]
+  ++ fbytes (repeatN 0 24).
+
+Lemma facs_new_flds_abs : facs_new_flds = facs_flds facs_vals0.
+Proof. reflexivity. Qed.
+
+(* per-field content: the packed struct serialises to the reference layout, for all values *)
+Lemma facs_flds_ref v : lay 64 (facs_layout v) = Some (ser_flds (facs_flds v)).
+Proof. reflexivity. Qed.
+
+Lemma facs_entries_are_reference : facs_ref_image (SL []) [] = Some (ser_flds facs_new_flds).
 Proof. vm_compute. reflexivity. Qed.
+
+(* one assignment: whenever the Spec accepts it on the values [v], the model accepts it on the abstraction of [v] and reaches
+   the abstraction of the Spec's new values *)
+Lemma facs_step_sim md v o :
+  match facs_apply v o with
+  | Some v' => facs_step md (facs_flds v) o = Some (facs_flds v', [EvNum 0])
+  | None => True
+  end.
+Proof.
+  unfold facs_apply, facs_step.
+  repeat (match goal with
+          | |- match (match ?x with _ => _ end) with _ => _ end => lazymatch x with nth_error _ _ => fail | _ => destruct x eqn:? end
+          end; try exact I).
+  unfold facs_assign_m.
+  match goal with |- context [nth_error facs_scalars (N.to_nat ?k)] => generalize (N.to_nat k) as kn end. intros kn.
+  do 7 (destruct kn as [|kn];
+        [cbn [nth_error facs_scalars FACS_ASSIGNABLE];
+         match goal with |- match (if ?b then _ else _) with _ => _ end => destruct b eqn:Hx end; [|exact I];
+         apply N.ltb_lt in Hx; rewrite (N.mod_small _ _ Hx); reflexivity|]).
+  destruct kn; exact I.
+Qed.
+
+Lemma facs_run_sim md ops : forall v v', facs_fold v ops = Some v' ->
+  run_steps (facs_step md) (facs_flds v) ops = Some (facs_flds v').
+Proof.
+  induction ops as [|o ops IH]; intros v v' H; cbn [facs_fold] in H.
+  - inversion H; subst. reflexivity.
+  - destruct (facs_apply v o) as [v1|] eqn:Ea; [|discriminate].
+    pose proof (facs_step_sim md v o) as Hb. rewrite Ea in Hb.
+    destruct o as [n|l]; [discriminate Ea|].
+    cbn [run_steps]. rewrite Hb. apply IH. exact H.
+Qed.
 
 Theorem facs_refines :
   forall md ctor ops r,
@@ -16,11 +65,56 @@ Theorem facs_refines :
                  run_steps (facs_step md) s0 ops = Some s /\
                  ser_flds s = r.
 Proof.
-  intros md ctor ops r H. cbn [ts_image facs_spec fixed_spec] in H.
-  apply ctor_only_some in H. destruct H as [-> H].
+  intros md ctor ops r H. cbn [ts_image facs_spec fixed_spec] in H. unfold facs_ref_image in H.
   destruct ctor as [|l]; [discriminate|]. destruct l as [|x l]; [|discriminate].
-  rewrite facs_entries_are_reference in H. inversion H; subst r; clear H.
-  exists facs_new_flds, facs_new_flds. repeat split.
+  destruct (facs_fold facs_vals0 ops) as [v|] eqn:Ef; [|discriminate].
+  rewrite facs_flds_ref in H. inversion H; subst r; clear H.
+  exists facs_new_flds, (facs_flds v). split; [reflexivity|]. split; [|reflexivity].
+  rewrite facs_new_flds_abs. apply facs_run_sim. exact Ef.
+Qed.
+
+(* histories inside the Spec's domain contain no observation marker *)
+Lemma facs_fold_no_markers ops : forall v v', facs_fold v ops = Some v' -> no_markers ops = true.
+Proof.
+  induction ops as [|o ops IH]; intros v v' H; [reflexivity|]. cbn [facs_fold] in H.
+  destruct (facs_apply v o) as [v1|] eqn:Ea; [|discriminate].
+  destruct o as [n|l]; [discriminate Ea|].
+  cbn [no_markers forallb]. exact (IH _ _ H).
+Qed.
+
+Lemma facs_no_markers ctor ops r : ts_image facs_spec ctor ops = Some r -> no_markers ops = true.
+Proof.
+  cbn [ts_image facs_spec fixed_spec]. unfold facs_ref_image.
+  destruct ctor as [|l]; [discriminate|]. destruct l as [|x l]; [|discriminate].
+  destruct (facs_fold facs_vals0 ops) as [v|] eqn:Ef; [|discriminate]. intros _. eapply facs_fold_no_markers; eauto.
+Qed.
+
+(* non-vacuity: every field assigned (x_waking with a non-zero upper half), hardware_signature twice (the last value stays),
+   observations in between: the Spec accepts the history, the model's case entry point emits the reference images, and the
+   final image carries every value at its ACPI 6.5 offset with Length = 64 *)
+Definition facs_example_ops1 : list sx := [SL [SA 10; SA 0; SA 0x11111111]; SL [SA 10; SA 4; SA 0xA1B2C3D400000005]].
+Definition facs_example_ops2 : list sx :=
+  [SL [SA 10; SA 1; SA 0x22222222]; SL [SA 10; SA 2; SA 3]; SL [SA 10; SA 3; SA 0x80000001]; SL [SA 10; SA 5; SA 2];
+   SL [SA 10; SA 6; SA 0xFFFFFFFF]; SL [SA 10; SA 0; SA 0xDEADBEEF]].
+
+Example facs_refines_nonvacuous :
+  exists r1 r,
+    ts_image facs_spec (SL []) facs_example_ops1 = Some r1 /\
+    ts_image facs_spec (SL []) (facs_example_ops1 ++ facs_example_ops2) = Some r /\
+    (forall md, exists evs1 evs2,
+        facs_case md (SL (SL [] :: facs_example_ops1 ++ [SA 1] ++ facs_example_ops2 ++ [SA 1]))
+        = evs1 ++ [EvBytes r1] ++ evs2 ++ [EvBytes r]) /\
+    length r = 64%nat /\ field_at r 4 4 = 64 /\
+    field_at r 8 4 = 0xDEADBEEF /\ field_at r 12 4 = 0x22222222 /\ field_at r 16 4 = 3 /\ field_at r 20 4 = 0x80000001 /\
+    field_at r 24 8 = 0xA1B2C3D400000005 /\ firstn 4 (skipn 28 r) = [0xD4; 0xC3; 0xB2; 0xA1] /\
+    field_at r 32 1 = 2 /\ field_at r 36 4 = 0xFFFFFFFF /\ field_at r1 8 4 = 0x11111111 /\ field_at r1 32 1 = 1.
+Proof.
+  eexists; eexists.
+  split; [vm_compute; reflexivity|]. split; [vm_compute; reflexivity|]. split.
+  - intros md. exists [EvNum 0; EvNum 0], [EvNum 0; EvNum 0; EvNum 0; EvNum 0; EvNum 0; EvNum 0].
+    destruct md; vm_compute; reflexivity.
+  - vm_compute. repeat split; reflexivity.
 Qed.
 
 Print Assumptions facs_refines.
+Print Assumptions facs_refines_nonvacuous.
